@@ -12,6 +12,9 @@ EXTENDS Integers, Sequences, FiniteSets, TLC
 
 OverflowFallback == TRUE    \* MultipleOf falls back to exact arithmetic on OverflowError
 ConstructFallback == TRUE   \* Number.construct keeps an int that has no float
+IntDivisorFallback == TRUE  \* so does the integer-divisor branch (value % multipleOf with a float value)
+DateTimeOverflowCaught == TRUE   \* _is_date_time catches ParserError, TypeError and OverflowError
+StrDigitsLimit == TRUE      \* the interpreter refuses repr()/str() of ints beyond 4300 digits (CPython >= 3.11)
 
 (* numeric value classes: [name, exp (binary exponent), isint] *)
 NumClasses == {
@@ -26,23 +29,35 @@ NumClasses == {
   [name |-> "denormal",  exp |-> -1074, isint |-> FALSE],
   [name |-> "int1024m1", exp |-> 1023,  isint |-> TRUE],     \* 2**1024 - 1: just above the largest float
   [name |-> "bigint",    exp |-> 1330,  isint |-> TRUE],
-  [name |-> "negbigint", exp |-> 1330,  isint |-> TRUE] }
+  [name |-> "negbigint", exp |-> 1330,  isint |-> TRUE],
+  [name |-> "int5000d",  exp |-> 16609, isint |-> TRUE] }    \* 10**5000: beyond the str-digits limit
 StrClasses == {"empty", "nul", "paren", "bracket", "smiley", "backslash", "long", "astral",
-               "combining", "surrogate", "newline", "percent_s", "brace"}
+               "combining", "surrogate", "newline", "percent_s", "brace", "digits30", "uuid_braced"}
 ShapeClasses == {"list_of", "dict_of", "deep_list", "deep_dict", "dict_unusual_key", "mixed_unhashable"}
 
 (* multipleOf arguments: [name, exp, isfloat] *)
 MultClasses == { [name |-> "m_half", exp |-> -1, isfloat |-> TRUE],
                  [name |-> "m_three", exp |-> 1, isfloat |-> FALSE],
                  [name |-> "m_threef", exp |-> 1, isfloat |-> TRUE],
-                 [name |-> "m_tiny", exp |-> -1000, isfloat |-> TRUE] }
+                 [name |-> "m_tiny", exp |-> -1000, isfloat |-> TRUE],
+                 [name |-> "m_bigint", exp |-> 1330, isfloat |-> FALSE] }
 
 (* numeric.py MultipleOf._validate, failure modes only *)
 MultipleOfRaises(v, m) ==
-  IF ~m.isfloat THEN FALSE                    \* value % int: exact (int) or float modulo, no overflow
+  IF ~m.isfloat                               \* value % int: exact for an int value; a float value
+  THEN ~IntDivisorFallback /\ ~v.isint /\ m.exp > 1023   \* converts the divisor: "int too large to convert to float"
   ELSE IF OverflowFallback THEN FALSE
   ELSE \/ v.isint /\ v.exp > 1023             \* int / float: "int too large to convert to float"
        \/ v.exp - m.exp >= 1024               \* quotient is inf; int(inf) raises OverflowError
+(* validation/format.py _is_date_time: dateutil raises OverflowError for a numeric token  *)
+(* beyond the C long range (documented by dateutil), which the checker does not catch     *)
+FormatRaises(atom, s) == atom = "format_datetime" /\ s = "digits30" /\ ~DateTimeOverflowCaught
+(* exceptions.py from_validator / multiple_composition_match format the rejected value     *)
+(* with repr()/str(): every REJECTION of an integer beyond the interpreter's str-digits    *)
+(* limit raises ValueError instead of the validation error                                 *)
+RejectsHugeInt == {"maximum_big", "const_big", "enum_mixed", "anyOf_str_int", "oneOf_two", "allOf_conflict",
+                   "not_any", "type_list", "required_named", "object_class"}
+MessageRaises(atom, v) == StrDigitsLimit /\ v.isint /\ v.exp > 14284 /\ atom \in RejectsHugeInt
 (* elements/numeric.py Number.construct: float(value) *)
 NumberConstructRaises(v) == ~ConstructFallback /\ v.isint /\ v.exp > 1023
 
@@ -60,23 +75,25 @@ NameClasses == {"nul", "del", "private_use", "surrogate", "paren", "space", "sup
 (* before trusting the table -- a mismatch is a machinery failure).         *)
 (* Values: zero 0, one 1, negzerof -0.0, onehalf 0.5, p53plus1 2**53+1,     *)
 (* fmax / negfmax +-1.7976931348623157e308, int308 10**308,                 *)
-(* int1024m1 2**1024-1, denormal 5e-324, bigint / negbigint +-10**400.      *)
+(* int1024m1 2**1024-1, denormal 5e-324, bigint / negbigint +-10**400,      *)
+(* int5000d 10**5000.                                                      *)
 (***************************************************************************)
 MultiplesOf(m) ==
   CASE m = "m_half"   -> {"zero", "one", "negzerof", "onehalf", "p53plus1", "fmax", "negfmax", "int308",
-                          "int1024m1", "bigint", "negbigint"}
+                          "int1024m1", "bigint", "negbigint", "int5000d"}
     [] m = "m_three"  -> {"zero", "negzerof", "p53plus1", "int1024m1"}
     [] m = "m_threef" -> {"zero", "negzerof", "p53plus1", "int1024m1"}
     [] m = "m_tiny"   -> {"zero", "negzerof"}
-AtLeastOne == {"one", "p53plus1", "fmax", "int308", "int1024m1", "bigint"}
-Integers_ == {"zero", "one", "p53plus1", "int308", "int1024m1", "bigint", "negbigint"}
+    [] m = "m_bigint" -> {"zero", "negzerof", "bigint", "negbigint", "int5000d"}
+AtLeastOne == {"one", "p53plus1", "fmax", "int308", "int1024m1", "bigint", "int5000d"}
+Integers_ == {"zero", "one", "p53plus1", "int308", "int1024m1", "bigint", "negbigint", "int5000d"}
 ExpectedAccept(c) ==     \* {TRUE}, {FALSE}, or BOOLEAN where the table says nothing
   IF c.kind = "mult" /\ c.arg = "m_tiny" THEN BOOLEAN     \* 1e-300 is not binary-exact: numeric accuracy (A4)
   ELSE IF c.kind = "mult" THEN {c.val \in MultiplesOf(c.arg)}
   ELSE IF c.kind = "num" /\ c.atom = "type_number" THEN {TRUE}
   ELSE IF c.kind = "num" /\ c.atom = "type_integer" THEN {c.val \in Integers_}
   ELSE IF c.kind = "num" /\ c.atom = "minimum" THEN {c.val \in AtLeastOne}
-  ELSE IF c.kind = "num" /\ c.atom = "maximum_big" THEN {TRUE}
+  ELSE IF c.kind = "num" /\ c.atom = "maximum_big" THEN {c.val # "int5000d"}
   ELSE IF c.kind = "num" /\ c.atom = "const_big" THEN {c.val = "bigint"}
   ELSE BOOLEAN
 R_C01_extreme(c, kind) == (kind = "ok" /\ TRUE \in ExpectedAccept(c)) \/ (kind = "reject" /\ FALSE \in ExpectedAccept(c))
